@@ -42,6 +42,8 @@ class Result:
                     assumptions=sorted(self.assumptions), bounded=self.bounded, src=self.src,
                     wall=round(self.wall, 3), obligations=self.obligations, rules=self.rules,
                     props=self.contract.props, mode=self.contract.mode,
+                    expects_return=bool(self.contract.ensures or self.contract.returns is not None or self.contract.each_yield
+                                        or self.contract.result_expr is not None),
                     contract_file=self.contract.source_file)
 
 
@@ -90,6 +92,10 @@ def collect(c, registry=None, timeout_ms=10000):
                     seen[k] = ob
         if res.pre_ok == 0:
             raise Unsupported('precondition of %s is unsatisfiable on every path (vacuous contract)' % c.qualname)
+        for (callee, where), (okc, dead, text) in sorted(getattr(models, 'site_stats', {}).items(), key=str):
+            if dead and not okc:
+                raise Unsupported('every path dies at the call of %s (line %s): its postcondition %r is false there -- the contract of the '
+                                  'callee does not fit this call and everything after it would be vacuous' % (callee, where, text[:80]))
         res.rules = dict(bitops.RULES_FIRED)
         obs = list(seen.values())
         res._obs = obs
